@@ -42,6 +42,10 @@ func statusTarget(x *Explorer, fr *Frame, in ssa.Instruction) (int64, bool) {
 		av := constAV(c)
 		return av.N, av.K == avInt
 	}
+	// a number chosen by an earlier branch on this path
+	if av := x.CurrentAV(v); av.K == avInt {
+		return av.N, true
+	}
 	// a parameter of a constructor / setter: resolve through the call frames
 	t := x.TM.Of(fr, v)
 	if t.Op == "const" {
@@ -213,6 +217,9 @@ func checkC08(w *World, r *Report) {
 				return false
 			}
 			v, ok := statusTargetConst(in)
+			if !ok && commitX != nil {
+				v, ok = statusTarget(commitX, commitFr, in) // the status is a parameter of a helper: bound by the call frames
+			}
 			return ok && v == to
 		}
 	}
@@ -288,6 +295,45 @@ func checkC08(w *World, r *Report) {
 		cases: relCases, atoms: []string{"pair0", "released"},
 		consequence: "an instalment is paid early, late, or twice"})
 
+	// every due instalment is released: with ReleaseTime ≤ BlockTime and released=false fixed, no non-failing path of a
+	// loop iteration (or of the function) that evaluated the comparison goes on without the transfer and the
+	// Released=true write — an instalment that is skipped (e.g. because its amount is zero) stays unreleased for ever
+	// and, if it is the last one, the auction never finishes
+	{
+		var bad []string
+		evaluated := false
+		for _, o := range []int{-1, 0} {
+			o := o
+			c := newCase(w, func(*Effect, ssa.Instruction) bool { return false })
+			statusIs(stVesting)(c)
+			c.pairs = append(c.pairs, ordPair{ord: o, match: pairOf(func(t *Term) bool { return fieldBase(t, "ReleaseTime") != nil }, isBlockTime)})
+			c.vals = append(c.vals, func(x *Explorer, fr *Frame, v ssa.Value) AV {
+				if t := x.TM.Of(fr, v); isField(t, "Released") {
+					return False
+				}
+				return Unknown
+			})
+			ra := &relAllRule{caseRule: c}
+			for _, out := range NewExplorer(w, tm, ra).Run(bb, 0) {
+				if out.St&raDue != 0 {
+					evaluated = true
+				}
+				if out.St&raViol != 0 {
+					bad = append(bad, fmt.Sprintf("ReleaseTime %s BlockTime, not released: a path to %s goes on to the next instalment (or returns) without the release transfer and the Released=true write", ordNames[o], w.instrPos(out.Instr)))
+				}
+				if out.Kind == ExitReturn && out.St&raDue != 0 && out.St&raDone != raDone {
+					if av, ok := out.ErrAV(bb); !ok || av.K != avNonNil {
+						bad = append(bad, fmt.Sprintf("ReleaseTime %s BlockTime, not released: the block hook returns at %s without the release transfer and the Released=true write", ordNames[o], w.instrPos(out.Instr)))
+					}
+				}
+			}
+		}
+		sort.Strings(bad)
+		r.Check(len(bad) == 0 && evaluated, "TIME-REL", "release:every-due-instalment", w.pos(bb.Pos()),
+			"on a Vesting auction every instalment with ReleaseTime ≤ BlockTime that is not yet released is paid and marked released on every non-failing path",
+			strings.Join(dedupe(bad), "; "))
+	}
+
 	// ---------------------------------------------------------------- OPEN-GUARD
 	for _, m := range []string{"PlaceBid", "ModifyBid"} {
 		var cases []guardCase
@@ -313,15 +359,66 @@ func checkC08(w *World, r *Report) {
 			o = -1
 		}
 		flCases = append(flCases, guardCase{label: fmt.Sprintf("index %s len-1", map[bool]string{true: "=", false: "≠"}[eq]), accept: eq, build: func(c *caseRule) {
-			c.pairs = append(c.pairs, ordPair{ord: o, match: pairOf(
-				func(t *Term) bool { return t.Op != "const" },
-				func(t *Term) bool {
-					return t.Op == "binop" && t.Name == "-" && t.Args[1].Key() == "const<1>" && t.Args[0].Op == "builtin" && t.Args[0].Name == "len"
-				})})
+			c.pairs = append(c.pairs, ordPair{ord: o, match: lastIndexPair})
 		}})
 	}
 	runGuard(w, r, tm, guardSpec{rule: "FINISH-LAST", id: "block-hook", root: bb, common: statusIs(stVesting),
 		what: "Vesting→Finished is written only while releasing the last instalment of the list", commit: isStatusWriteTo(stFinished), commitTxt: "the Finished status write",
 		cases: flCases, atoms: []string{"pair0"}, consequence: "the auction finishes before its last instalment is paid (later instalments are never released) or never finishes"})
 	_ = token.ADD
+}
+
+// relAllRule: per loop iteration, once the tracked "due" comparison has been evaluated (raDue), the iteration must
+// perform a transfer (raXfer) and a VestingQueue write (raWrite) before the loop continues.
+type relAllRule struct {
+	*caseRule
+}
+
+const (
+	raDue   = 1 << 0
+	raXfer  = 1 << 1
+	raWrite = 1 << 2
+	raViol  = 1 << 3
+	raDone  = raXfer | raWrite
+)
+
+func (ra *relAllRule) OnInstr(x *Explorer, fr *Frame, in ssa.Instruction, st uint64) uint64 {
+	// the tracked comparison, as a call (Time.After/Before/…) or an operator
+	switch c := in.(type) {
+	case *ssa.Call:
+		if op, isCmp := intCmp[callKey(&c.Call)]; isCmp && len(c.Call.Args) == 2 {
+			if v := ra.caseRule.decide(x, fr, op, c.Call.Args[0], c.Call.Args[1]); v.K != avUnknown {
+				st |= raDue
+			}
+		}
+	case *ssa.BinOp:
+		if v := ra.caseRule.decide(x, fr, c.Op, c.X, c.Y); v.K != avUnknown {
+			st |= raDue
+		}
+	}
+	if e := ra.w.EffectOf(in); e != nil {
+		switch {
+		case e.Kind == EffTransfer:
+			st |= raXfer
+		case e.Kind == EffStoreWrite && e.Coll == "VestingQueue":
+			st |= raWrite
+		}
+	}
+	return st
+}
+
+func (ra *relAllRule) OnBlock(x *Explorer, fr *Frame, b, pred *ssa.BasicBlock, st uint64) uint64 {
+	if pred == nil {
+		return st
+	}
+	// a back edge of a loop: the iteration is over
+	for _, l := range fnInfo(fr.Fn).Loops {
+		if l.Header == b && l.Blocks[pred] {
+			if st&raDue != 0 && st&raDone != raDone {
+				st |= raViol
+			}
+			st &^= raDue | raXfer | raWrite
+		}
+	}
+	return st
 }
